@@ -1,4 +1,6 @@
-(** C05 property theorems (nothing else lives here). *)
+(** C05 property theorems (nothing else lives here).
+    [encode enc mac None m] models Message.to_bytes() of a message without crypto, [decode dec mac None false b]
+    models Message.parse(b); [rfc_encode] is the independent RFC 7296 section 3 layout (Rfc7296Layout.v). *)
 From Coq Require Import List NArith.
 From VLib Require Import Bytes.
 From Codec Require Import Gen.MessageTables Struct Codec MonadLemmas Rfc7296Layout C05Proofs.
@@ -10,3 +12,35 @@ Import ListNotations.
 Theorem C05_gen_tables : gen_tables_agree.
 Proof. exact gen_tables_agree_proof. Qed.
 Print Assumptions C05_gen_tables.
+
+(* Full statements (DESIGN section 6):
+     C05_layout    : forall m, wf_msg m -> encode enc mac None m = Ok (rfc_encode m)
+     C05_roundtrip : forall m, wf_msg m -> exists b, encode .. m = Ok b /\ decode .. None false b = Ok m
+   Proved below for every message whose payloads are SA (nested proposals, transforms with/without key length,
+   any SPI size), KE, IDi, IDr, AUTH, NONCE, NOTIFY, VENDOR and a trailing SK - unbounded in the number of
+   payloads, proposals and transforms.  Missing for the unrestricted statements: the body lemmas for DELETE and
+   TSi/TSr ([simple_chain] excludes exactly these two); they are covered by the correspondence and the oracle. *)
+Theorem C05_layout_partial : forall enc mac m, wf_msg m -> simple_chain (m_payloads m) ->
+  encode enc mac None m = Ok (rfc_encode m).
+Proof. exact layout_partial. Qed.
+Print Assumptions C05_layout_partial.
+
+Theorem C05_roundtrip_partial : forall enc dec mac m, wf_msg m -> simple_chain (m_payloads m) ->
+  exists b, encode enc mac None m = Ok b /\ decode dec mac None false b = Ok m.
+Proof. exact roundtrip_partial. Qed.
+Print Assumptions C05_roundtrip_partial.
+
+(** SA payloads of any shape: layout and round trip of the nested proposal / transform / attribute structure. *)
+Theorem C05_sa_layout : forall ps, Forall wf_proposal ps -> fst (body_to_bytes (B_SA ps)) = Ok (rfc_proposals ps).
+Proof. intros ps H. rewrite (sa_layout ps H). reflexivity. Qed.
+Print Assumptions C05_sa_layout.
+
+Theorem C05_sa_roundtrip : forall ps, ps <> [] -> Forall wf_proposal ps ->
+  fst (parse_sa (rfc_proposals ps)) = Ok (B_SA ps).
+Proof. exact sa_roundtrip. Qed.
+Print Assumptions C05_sa_roundtrip.
+
+(** Non-vacuity of the hypotheses. *)
+Theorem C05_hypotheses_satisfiable : wf_msg example_msg /\ simple_chain (m_payloads example_msg).
+Proof. exact example_msg_wf. Qed.
+Print Assumptions C05_hypotheses_satisfiable.
